@@ -140,7 +140,7 @@ def jobs(prop, tier):
         groups = ((0, 'nosignal'), (1, 'skip'), (2, 'ready'), (9, 'recv'))
         # quick tier: the combinations in which arming, the address write, the echo check and the loss of signal happen
         quick = {'C03': ('q1_arm0_skip', 'q1_arm0_ready', 'q1_arm1_skip', 'q1_arm1_skip_gen', 'q1_arm1_recv', 'q1_arm2_ready'),
-                 'C04': ('q1_arm1_skip', 'q1_arm2_ready')}[prop]   # q1_arm2_skip (late echo) needs 5-12 min: thorough tier
+                 'C04': ('q1_arm1_skip', 'q1_arm2_ready', 'q1_arm2_skip')}[prop]   # q1_arm2_skip = late echo of the own address (220 s alone)
         for (nq, arm) in combos:
           for (hg, gn) in groups:
            for gs in (0, 1):
